@@ -431,7 +431,10 @@ type Outcome struct {
 	Viols    []Viol
 	Applied  []Step
 	Panicked string
-	Stats    map[string]int
+	// the call under test never returned: the bubble was left with blocked goroutines (the monitor
+	// failures recorded up to then are kept, the harness goes on with the next scenario)
+	Stuck string
+	Stats map[string]int
 }
 
 func runScenario(t *testing.T, sc *Scenario, r *vlib.Rand, maxSteps int) *Outcome {
@@ -446,6 +449,34 @@ func runScenario(t *testing.T, sc *Scenario, r *vlib.Rand, maxSteps int) *Outcom
 	if sc.P <= 0 {
 		e.reqPar = gmp
 	}
+	// A call that never returns leaves goroutines blocked for good; synctest.Test then panics in this
+	// goroutine ("deadlock: ..."), which is recovered here. (A panic raised *inside* the bubble function
+	// would kill the test binary and lose every failure recorded so far.)
+	stuck, sv := vlib.Try(func() {
+		e.bubble(t, sc, r, maxSteps, out, gmp)
+	})
+	if stuck {
+		out.Stuck = fmt.Sprint(sv)
+		e.finalMonitors()
+	}
+	out.Viols = append(out.Viols, e.viols...)
+	if e.panicked != nil {
+		out.Panicked = fmt.Sprint(e.panicked)
+	}
+	out.Stats["calls"] = len(e.calls)
+	out.Stats["maxGauge"] = e.maxGauge
+	for _, c := range e.calls {
+		if c.cancelled {
+			out.Stats["startedCancelled"]++
+		}
+		if c.res.err != nil {
+			out.Stats["failedCalls"]++
+		}
+	}
+	return out
+}
+
+func (e *env) bubble(t *testing.T, sc *Scenario, r *vlib.Rand, maxSteps int, out *Outcome, gmp int) {
 	synctest.Test(t, func(t *testing.T) {
 		start := time.Now()
 		var callerCtx context.Context
@@ -604,27 +635,9 @@ func runScenario(t *testing.T, sc *Scenario, r *vlib.Rand, maxSteps int) *Outcom
 			<-done
 		}
 		e.finalMonitors()
-		if !ret {
-			// cannot leave the bubble with a blocked goroutine: report through the result file
-			out.Viols = append(out.Viols, e.viols...)
-			panic(fmt.Sprintf("C13 harness: the call never returned (scenario %s)", sc.key()))
-		}
+		// if the call never returned (already recorded as "no-return"), the bubble is left with its
+		// goroutines blocked: synctest.Test panics in the caller, which runScenario recovers
 	})
-	out.Viols = append(out.Viols, e.viols...)
-	if e.panicked != nil {
-		out.Panicked = fmt.Sprint(e.panicked)
-	}
-	out.Stats["calls"] = len(e.calls)
-	out.Stats["maxGauge"] = e.maxGauge
-	for _, c := range e.calls {
-		if c.cancelled {
-			out.Stats["startedCancelled"]++
-		}
-		if c.res.err != nil {
-			out.Stats["failedCalls"]++
-		}
-	}
-	return out
 }
 
 // ---------------------------------------------------------------------------------------------
@@ -752,7 +765,7 @@ func check(t *testing.T, sc *Scenario, r *vlib.Rand, m *vlib.Model, res *vlib.Re
 			outOfRange = true
 		}
 		small := sc
-		if sc.Kind == "script" && len(sc.Steps) > 1 {
+		if sc.Kind == "script" && len(sc.Steps) > 1 && o.Stuck == "" {
 			steps := vlib.Shrink(sc.Steps, func(c []Step) bool {
 				s2 := *sc
 				s2.Steps = c
@@ -815,6 +828,9 @@ func TestVerif(t *testing.T) {
 		}
 		for _, v := range o.Viols {
 			fmt.Printf("monitor: %s: %s\n", v.Kind, v.What)
+		}
+		if o.Stuck != "" {
+			fmt.Println("the call never returned:", o.Stuck)
 		}
 		if m != nil && len(o.Lines) > 0 {
 			if i, got, err := conform(m, o.Lines); err == nil && i >= 0 {
